@@ -101,6 +101,7 @@ type victimTracer struct {
 	problems               []string // oracle (3) violations noticed while the run goes on
 	crashOpen              []int64
 	planLeft               int  // crash points not reached when the scheduled part of the run ended
+	sawSameDesc            bool // at some broadcast the outbox held two rows with the same description
 	crashedEvalsWaiting    bool // some crash happened while evaluations of the victim waited in poly_evals for a receiver's check-in
 	crashedMidRange        bool // some crash fell between the block transactions of one multi-block sync range
 	crashedMidRangeDKG     bool // ... and a block already committed in that range changes the DKG state
@@ -290,6 +291,16 @@ func (vt *victimTracer) step(r *Run, n *Node, budget int) error {
 	}
 	prevAfter := n.Client.AfterDeliver
 	n.Client.AfterDeliver = func(rec *TxRec) {
+		if !vt.sawSameDesc {
+			seen := map[string]bool{}
+			for _, row := range n.Srv.Rows("tendermint_outgoing_messages") {
+				d, _ := row["description"].(string)
+				if seen[d] {
+					vt.sawSameDesc = true
+				}
+				seen[d] = true
+			}
+		}
 		sendMarks = append(sendMarks, vt.rel())
 		prevAfter(rec)
 	}
@@ -492,6 +503,7 @@ type c08Result struct {
 	crashedMidRange        bool
 	crashedMidRangeDKG     bool
 	crashedEvalsWaiting    bool
+	sawSameDesc            bool
 	persistFailed          bool
 	divergence             string
 }
@@ -505,7 +517,8 @@ type c08Result struct {
 // the victim lag (it iterates every 2nd / 3rd block), so that its sync ranges
 // hold several blocks with one database transaction each. In variants 6 and 7
 // one / two other keypers check in only after the eon has started, so the
-// victim's evaluations for them wait in poly_evals for some blocks.
+// victim's evaluations for them wait in poly_evals for some blocks; variants 8
+// and 9 put the late check-in right behind the eon start (see below).
 func c08Scenario(variant, victim int) Scenario {
 	orders := [][]int{{0, 1, 2}, {2, 0, 1}, {1, 2, 0}}
 	sc := Scenario{N: 3, T: 2, L: 8, Order: orders[variant%len(orders)], Byz: map[int]ByzStrategy{}, Fair: true, ForkEnabled: variant%2 == 0, Tail: 8}
@@ -527,6 +540,19 @@ func c08Scenario(variant, victim int) Scenario {
 		// lands two blocks after EonStarted; the victim sends that evaluation
 		// three blocks later, still inside the dealing phase
 		sc.StartLate = map[int]int{(victim + 1) % 3: 2}
+	}
+	if variant == 8 || variant == 9 {
+		// a third keyper checks in one block after EonStarted. Variant 8: the
+		// victim is a slow node that applies the EonStarted block and the
+		// check-in block in one sync range before its sender runs, so its
+		// outbox holds two "poly eval (eon=N)" rows at the same time (first
+		// the receivers known at the eon start, then the late one). Variant 9:
+		// no lag - the two rows meet only if the victim dies between the
+		// transaction of the EonStarted block and the send.
+		sc.StartLate = map[int]int{(victim + 1) % 3: 1}
+		if variant == 8 {
+			sc.Lag = map[int]int{victim: 2}
+		}
 	}
 	if variant == 7 {
 		// four keypers, two of them late (1 and 3 blocks after the eon start)
@@ -597,6 +623,7 @@ func runC08(sc Scenario, victim int, plan []crashPoint, ref *c08Result, fail fai
 	res.crashedAfterCommitOnly = vt.crashedAfterCommitOnly
 	res.crashedMidRange, res.crashedMidRangeDKG = vt.crashedMidRange, vt.crashedMidRangeDKG
 	res.crashedEvalsWaiting = vt.crashedEvalsWaiting
+	res.sawSameDesc = vt.sawSameDesc
 	if res.execErr != nil || len(res.unsupported) > 0 {
 		if res.execErr != nil && len(res.unsupported) == 0 {
 			fail("no-progress", "%v\ncrashes: %v\n%s", res.execErr, vt.crashes, r.history())
@@ -829,7 +856,7 @@ func canonRows(rows []map[string]any) string {
 
 // ---------------------------------------------------------------------------
 
-const c08Rule = "case = (victim keyper, crash point) in a DKG run in which the crash-free twin succeeds (n=3,t=2,L=8, every keyper one sync+onchain+send iteration per block; variants: all honest with two keyper-set orders and check-in fork on/off; one Byzantine keyper that deals a wrong eval to the victim and accuses it falsely, so that the victim also has an accusation and an apology to get through): every client->database round trip k of the victim observed in a crash-free reference run x {connection lost before the request, request executed (COMMIT applied) but reply lost}, and every accepted BroadcastTxCommit x {process dies before the outbox row is deleted}; a fourth variant sends one message per keyper and block (commitment-only blocks exist); in a fifth and sixth the victim is a slow node that runs its main loop only every 2nd / 3rd block (the sixth together with the Byzantine dealer, L=10), so that it catches up over sync ranges of several blocks with one transaction each and crash points lie between them; in a seventh and eighth one / two other keypers come up late and check in 1-3 blocks after the eon start (n=4, L=10 for two), so that evaluations of the victim wait in poly_evals for a receiver's encryption key while it crashes; quick (every seed) runs the one-message variant, the Byzantine variant and the every-2nd-block variant with victim k1 and every 7th database point, plus the one-late-keyper variant restricted to the blocks h0+2..h0+8 around the late check-in with every 3rd point, thorough all eight variants, all three victims, every point and 800 sampled pairs of crashes per variant and victim. In addition, in every run (crash-free twin included), after every main-loop iteration of every honest keyper that ended without error, and after every per-block transaction inside a sync range, the PureDKG objects in the keyper's memory (read through reflect) must equal the puredkg rows decoded from its database: what a keyper knows after a committed block must be persisted. Non-trivial = the crash fell inside an open database transaction (block-tx, block-commit, onchain-tx, onchain-commit), on the outbox delete, or between an accepted broadcast and the delete (as opposed to an idle poll or a BEGIN). Distinct = (variant, victim, crash points)."
+const c08Rule = "case = (victim keyper, crash point) in a DKG run in which the crash-free twin succeeds (n=3,t=2,L=8, every keyper one sync+onchain+send iteration per block; variants: all honest with two keyper-set orders and check-in fork on/off; one Byzantine keyper that deals a wrong eval to the victim and accuses it falsely, so that the victim also has an accusation and an apology to get through): every client->database round trip k of the victim observed in a crash-free reference run x {connection lost before the request, request executed (COMMIT applied) but reply lost}, and every accepted BroadcastTxCommit x {process dies before the outbox row is deleted}; a fourth variant sends one message per keyper and block (commitment-only blocks exist); in a fifth and sixth the victim is a slow node that runs its main loop only every 2nd / 3rd block (the sixth together with the Byzantine dealer, L=10), so that it catches up over sync ranges of several blocks with one transaction each and crash points lie between them; in a seventh and eighth one / two other keypers come up late and check in 1-3 blocks after the eon start (n=4, L=10 for two), so that evaluations of the victim wait in poly_evals for a receiver's encryption key while it crashes; in a ninth and tenth the late check-in follows the eon start by one block and the victim is a slow node (ninth) or not (tenth), so that two outbox rows with the same description ('poly eval (eon=N)' for the receivers known at the eon start and for the late one) are pending together - always in the ninth, after a crash between the EonStarted block's transaction and the send in the tenth; quick (every seed) runs the one-message variant, the Byzantine variant and the every-2nd-block variant with victim k1 and every 7th database point, plus the one-late-keyper variant and the late-keyper-with-slow-victim variant restricted to the blocks h0+2..h0+8 around the late check-in with every 3rd point, thorough all ten variants, all three victims, every point and 800 sampled pairs of crashes per variant and victim. In addition, in every run (crash-free twin included), after every main-loop iteration of every honest keyper that ended without error, and after every per-block transaction inside a sync range, the PureDKG objects in the keyper's memory (read through reflect) must equal the puredkg rows decoded from its database: what a keyper knows after a committed block must be persisted. Non-trivial = the crash fell inside an open database transaction (block-tx, block-commit, onchain-tx, onchain-commit), on the outbox delete, or between an accepted broadcast and the delete (as opposed to an idle poll or a BEGIN). Distinct = (variant, victim, crash points)."
 
 func c08Assumptions(rec *Recorder) {
 	rec.Assume(
@@ -868,10 +895,10 @@ func TestC08_CrashRecovery(t *testing.T) {
 	rec.AddRule(c08Rule)
 	c08Assumptions(rec)
 
-	variants := []int{3, 2, 4, 6}
+	variants := []int{3, 2, 4, 6, 8}
 	victims := []int{1}
 	if thorough() {
-		variants = []int{0, 1, 2, 3, 4, 5, 6, 7}
+		variants = []int{0, 1, 2, 3, 4, 5, 6, 7, 8, 9}
 		victims = []int{0, 1, 2}
 	}
 	caseNo := 0
@@ -901,8 +928,12 @@ func TestC08_CrashRecovery(t *testing.T) {
 					rec.Violation(sigPersistedMemory, refFail[0], path)
 					t.Errorf("VERIF-FAIL signature=%s :: variant=%d victim=k%d crash-free run :: %s", sigPersistedMemory, variant, victim, refFail[0])
 				} else {
-					rec.Violation("crash-free-run-fails", refFail[0], "")
-					t.Fatalf("VERIF-FAIL signature=crash-free-run-fails :: the crash-free reference run violates the oracles: %s", refFail[0])
+					// the oracles already fail without any crash: report and go on with the next scenario
+					sig := strings.SplitN(refFail[0], ":", 2)[0]
+					path := rec.SaveReplay(t.Name(), fmt.Sprintf("reference-v%d-k%d", variant, victim), map[string]any{"variant": variant, "victim": victim, "plan": []crashPoint{}, "seed": seed})
+					rec.Violation(sig, "crash-free run: "+refFail[0], path)
+					t.Errorf("VERIF-FAIL signature=%s :: variant=%d victim=k%d crash-free run :: %s", sig, variant, victim, refFail[0])
+					continue
 				}
 			}
 			if len(ref.units) != len(ref2.units) || len(ref.bcasts) != len(ref2.bcasts) {
@@ -945,8 +976,8 @@ func TestC08_CrashRecovery(t *testing.T) {
 				// quick: a slice of the single points chosen by the seed (stratified over the run), all rpc points
 				stride := 7
 				for i, p := range points {
-					if variant == 6 {
-						// the rest of this run looks like variant 0: only the blocks around
+					if variant == 6 || variant == 8 {
+						// the rest of this run looks like variant 0 / 4: only the blocks around
 						// the late check-in, every 3rd point
 						stride = 3
 						if p.Kind == "db" {
@@ -1052,6 +1083,9 @@ func TestC08_CrashRecovery(t *testing.T) {
 				}
 				if res.crashedEvalsWaiting {
 					labels = append(labels, "crash-while-evals-wait-for-a-check-in")
+				}
+				if res.sawSameDesc {
+					labels = append(labels, "two-outbox-rows-with-the-same-description-pending")
 				}
 				if res.crashedMidRange {
 					labels = append(labels, "crash-between-blocks-of-multi-block-range")
